@@ -97,11 +97,22 @@ def run(ctx):
         b = "".join(s2) if form == "str" else (list(s2) if form == "list" else tuple(s2))
         mode = rng.choice(["default", "dict_max", "dict_min", "gap_only"])
         matrix, gap, modifier, sub = {}, 1.0, -1.0, None
+        tiny = False
         if mode != "default":
             if mode != "gap_only":
                 matrix = {(rng.choice(ALPHA), rng.choice(ALPHA)): rng.choice([-2, -1, 0.5, 1, 2, 3])
                           for _ in range(rng.randint(1, 4))}
-            gap = rng.choice([0.5, 1, 1, 2, 3])
+            gap = rng.choice([0.5, 1, 1, 2, 3, 0, 0.0])
+            if mode != "gap_only" and rng.random() < 0.25:
+                # near ties and tiny magnitudes: optimal and almost-optimal moves differ by less than float tolerances
+                sc = rng.choice([1e-9, 1.0])
+                if sc != 1.0:
+                    # complete table, so that no pair falls back to the default +-1 scores
+                    matrix = {(x_, y_): rng.choice([-2, -1, 0.5, 1, 2, 3]) for x_ in ALPHA for y_ in ALPHA}
+                matrix = {k_: (v_ * sc + rng.choice([0, 4e-6 * sc, -3e-6 * sc])) for k_, v_ in matrix.items()}
+                matrix[(rng.choice(ALPHA), rng.choice(ALPHA))] = -1.000004 * sc
+                gap = rng.choice([0.5 * sc, 1.0 * sc])
+                tiny = sc != 1.0
             opt = "min" if mode == "dict_min" else "max"
             modifier = 1.0 if opt == "min" else -1.0
             sub = alignment.make_substitution_fn(dict(matrix), gap=gap, opt=opt)
@@ -116,7 +127,9 @@ def run(ctx):
         ctx.count("values_checked")
         ctx.case(("nw", tuple(s1), tuple(s2), mode, tuple(sorted(matrix.items())), gap), l1 > 0 and l2 > 0 and
                  want < sum(1.0 for _ in range(min(l1, l2))))
-        if not oracle.close(float(value), want):
+        scale_ = max([abs(v_) for v_ in matrix.values()] + [abs(gap), 1e-300]) if tiny else max([abs(v_) for v_ in matrix.values()] + [abs(gap), 1.0])
+        tol_ = 1e-9 * scale_ * (l1 + l2 + 1)
+        if abs(float(value) - want) > tol_:
             ctx.violation("value-not-optimal", got=float(value), want=want, **wit)
             continue
         for order in ([None] + [list(o) for o in rng.sample(orders, 2)]):
@@ -135,7 +148,7 @@ def run(ctx):
                 bad = "a gap is aligned with a gap"
             else:
                 sc = sum((-gap if (x == "-" or y == "-") else score_pair(x, y, matrix, modifier)) for x, y in zip(s1a, s2a))
-                if not oracle.close(sc, float(value)):
+                if abs(sc - float(value)) > tol_:
                     bad = "alignment score %r differs from the returned value %r" % (sc, float(value))
             if bad:
                 ctx.violation("alignment-inconsistent", reason=bad, order=order, s1a=s1a, s2a=s2a, value=float(value), **wit)
